@@ -3,6 +3,7 @@ package main
 import (
 	"go/ast"
 	"go/token"
+	"sort"
 	"strconv"
 	"strings"
 )
@@ -295,6 +296,38 @@ func extractBan() {
 		put("isBannedUsesStore", strings.Contains(body, "ipNet,err:=banman.ParseIPNet(addr,nil)") &&
 			strings.Contains(body, "banStatus,err:=s.banStore.Status(ipNet)") && strings.HasSuffix(body, "returnbanStatus.Banned}"),
 			"IsBanned = banStore.Status(ParseIPNet(addr, nil)).Banned")
+		// no memo: the only field of the ChainService IsBanned touches is the ban store, its first statement is
+		// the parse, and it returns either false (error paths) or the Banned flag of the status just read
+		fields := map[string]bool{}
+		var rets []string
+		ast.Inspect(fd.Body, func(x ast.Node) bool {
+			switch v := x.(type) {
+			case *ast.SelectorExpr:
+				if id, ok := v.X.(*ast.Ident); ok && id.Name == "s" {
+					fields[v.Sel.Name] = true
+				}
+			case *ast.ReturnStmt:
+				var rs []string
+				for _, r := range v.Results {
+					rs = append(rs, squeeze(src(r)))
+				}
+				rets = append(rets, strings.Join(rs, ","))
+			}
+			return true
+		})
+		var fl []string
+		for f := range fields {
+			fl = append(fl, f)
+		}
+		sort.Strings(fl)
+		first := ""
+		if len(fd.Body.List) > 0 {
+			first = squeeze(src(fd.Body.List[0]))
+		}
+		l.def("isBannedFields", "List String", lstrs(fl), "fields of the ChainService that IsBanned reads or writes")
+		l.def("isBannedReturns", "List String", lstrs(rets), "what IsBanned returns, in source order")
+		l.def("isBannedFirstStmt", "String", strconv.Quote(first), "IsBanned's first statement")
+		shape["isBannedFields"], shape["isBannedReturns"] = fl, rets
 	}
 	if fd := funcDecl(nf, "ChainService", "BanPeer"); fd == nil {
 		fail("neutrino.go: method ChainService.BanPeer")
